@@ -96,3 +96,47 @@ def core_bytes(Y):
 
 def bits_le(i, q):
     return [(i >> b) & 1 for b in range(q)]
+
+
+def tt_dot(A, B):
+    """<A, B> by an explicit left-to-right chain (no dense tensor; for long trains with small ranks)."""
+    v = np.ones((1, 1))
+    for G, H in zip(A, B):
+        v = np.einsum('ab,anc,bnd->cd', v, G, H)
+    return float(v[0, 0])
+
+
+def tt_entries(Y, I):
+    """Entries at the rows of I by explicit chains."""
+    out = np.empty(len(I))
+    for j, idx in enumerate(I):
+        v = np.ones((1, 1))
+        for G, i in zip(Y, idx):
+            v = v @ G[:, int(i), :]
+        out[j] = v[0, 0]
+    return out
+
+
+def tt_norm_diff(A, B):
+    """||A - B||_F for two trains of the same shape: block cores of the difference, then an own left-to-right QR sweep
+    (accurate to rounding of |A| + |B|; no dense tensor, no cancellation of squared norms)."""
+    d = len(A)
+    D = []
+    for k, (G, H) in enumerate(zip(A, B)):
+        if k == 0:
+            D.append(np.concatenate([G, -H], axis=2))
+        elif k == d - 1:
+            D.append(np.concatenate([G, H], axis=0))
+        else:
+            r1, n, r2 = G.shape
+            s1, _, s2 = H.shape
+            Z = np.zeros((r1 + s1, n, r2 + s2))
+            Z[:r1, :, :r2] = G
+            Z[r1:, :, r2:] = H
+            D.append(Z)
+    R = np.ones((1, 1))
+    for k in range(d):
+        G = np.tensordot(R, D[k], 1)
+        r1, n, r2 = G.shape
+        Q, R = np.linalg.qr(G.reshape(r1 * n, r2))
+    return float(np.linalg.norm(R))
